@@ -200,6 +200,15 @@ pub fn programs(thorough: bool) -> Vec<Cmd> {
         out.push(seq(vec![Cmd::Subshell(bx(Cmd::Subshell(bx(seq(vec![st.clone(), Cmd::S(9)]))))), p(0)]));
         out.push(seq(vec![Cmd::Subshell(bx(seq(vec![st.clone(), st.clone(), Cmd::S(8)]))), p(0)]));
     }
+    // T10: substitutions whose output exceeds the pipe capacity (the parent must read while the
+    // child is still writing: waiting first would deadlock)
+    for n in [1025u32, 2049, 5000] {
+        out.push(seq(vec![Cmd::Subst(bx(Cmd::Gen(n))), p(0)]));
+        out.push(seq(vec![Cmd::Subst(bx(seq(vec![Cmd::Gen(n), Cmd::Exit(Some(7))]))), p(0)]));
+        out.push(seq(vec![Cmd::Subst(bx(Cmd::Pipe(vec![Cmd::Gen(n), Cmd::Cat]))), p(0)]));
+        out.push(seq(vec![Cmd::Async(bx(Cmd::Subst(bx(Cmd::Gen(n))))), Cmd::WaitLast, p(0)]));
+        out.push(seq(vec![Cmd::Pipe(vec![Cmd::Subst(bx(Cmd::Gen(n))), Cmd::S(3)]), p(0)]));
+    }
     // T11: background job concurrent with a foreground pipeline
     for a in atoms.iter().take(5) {
         for pl in pipes.iter().step_by(7) {
